@@ -25,6 +25,11 @@ TypedFields == {"raw", "u", "i", "b", "d", "y", "ip"}
 Fields == TextFields \cup TypedFields \cup {"fa", "j"}
 
 \* JSON: one token stream per path; a text value is a sequence of words at positions 0, 1, ...
+\* A document may hold several values (objects) for the JSON field and a path may hold several text leaves
+\* (an array, or the same path in several of the values): the positions of a path CONTINUE across all of them,
+\* in the order indexed, with the same gap of PositionGap as between the values of a text field (this is what
+\* the unchanged indexer does: one position counter per path and document).  `vals` lists the leaves of a path
+\* in that order; the member `obj` (which value of the document a leaf sits in) does not enter the positions.
 RECURSIVE PathStr(_, _)
 PathStr(p, n) == IF n = 1 THEN p[1] ELSE PathStr(p, n - 1) \o "." \o p[n]
 JsonTextVals(path, vals) ==
